@@ -6,7 +6,7 @@
 // ------------------------------------------------------------------------
 
 use super::{BerDecoder, BerHeader, SnmpOid, TAG_RELATIVE_OID, Tag};
-use crate::error::SnmpResult;
+use crate::error::{SnmpError, SnmpResult};
 
 #[derive(Debug, PartialEq, Clone)]
 pub struct SnmpRelativeOid<'a>(&'a [u8]);
@@ -23,6 +23,28 @@ impl<'a> BerDecoder<'a> for SnmpRelativeOid<'a> {
 }
 
 impl SnmpRelativeOid<'_> {
+    /// Validate relative oid against the absolute one and apply it.
+    /// `normalize` expects non-empty absolute oid and, when the relative
+    /// oid replaces it completely, two leading sub-identifiers
+    /// which collapse into the single first octet.
+    pub fn try_normalize<'a>(&self, oid: &SnmpOid) -> SnmpResult<SnmpOid<'a>> {
+        if oid.0.is_empty() {
+            return Err(SnmpError::InvalidData);
+        }
+        let rel_si = SnmpRelativeOid::subelements(self.0);
+        let base_si = SnmpRelativeOid::subelements(&oid.0[1..]);
+        if rel_si >= base_si {
+            // Replace fully
+            if self.0.len() < 2 || self.0[0] > 2 {
+                return Err(SnmpError::InvalidData);
+            }
+            let max_second = if self.0[0] == 2 { 47 } else { 39 };
+            if self.0[1] > max_second {
+                return Err(SnmpError::InvalidData);
+            }
+        }
+        Ok(self.normalize(oid))
+    }
     /// Apply relative oid to absolute one
     /// and return normalized absolute oid
     pub fn normalize<'a>(&self, oid: &SnmpOid) -> SnmpOid<'a> {
